@@ -756,10 +756,13 @@ def process_template(template_path, repo_root, include_dirs=(), restrict=()):
                     ats.append((mm.group(1), mm.group(2), buf))
                     cur = buf
                 elif t.startswith('//@@finding'):
-                    fid = t.split()[1]
+                    mm = re.match(r'//@@finding\s+(\S+)(?:\s+(before|after)\s+"(.*)")?\s*$', t)
+                    if not mm:
+                        raise ExtractError("bad //@@finding line: %s" % t)
+                    fid = mm.group(1)
                     buf = []
                     if fid in restrict:
-                        ats.append(('bodystart', None, buf))
+                        ats.append((mm.group(2) or 'bodystart', mm.group(3), buf))
                     findings_seen.append(fid)
                     cur = buf
                 elif t.startswith('//@@rewrite'):
